@@ -845,7 +845,7 @@ def rule_delimcount(ctx, rep, rid="R-C10-delimcount"):
 
 def run(ctx, rep):
     rep.not_decided += ["parse(render(L)) == L itself (value-level)", "numeric formatting other than the fraction point of reals (durations truncated to whole ms)",
-                        "order and multiplicity of the terminals a writer spells (R-C10-tokens decides *which* terminals of a production are spelled by a writer of its node, not where)",
+                        "multiplicity of the terminals a writer spells, and their order where a terminal is written in a helper, a closure or at several places (R-C10-tokens decides *which* terminals of a production are spelled by a writer of its node; R-C10-order decides the order of those written once in the override's own body, among themselves and relative to the children)",
                         "terminals of sequences that build no node of their own (lists, tuples, values handed up to the caller): attributed only through one-alternative bracketing rules"]
     rep.assumptions += ["C10 findings whose output is pinned byte-for-byte by a *_rendered.st fixture are recorded as known findings and cannot be repaired without editing the suite"]
     rule_fields(ctx, rep)
@@ -867,6 +867,8 @@ def run(ctx, rep):
     c10_tokens.run_glue(ctx, rep)
     from rules import c10_debug
     c10_debug.run(ctx, rep)
+    from rules import c10_order
+    c10_order.run(ctx, rep)
     rule_delimcount(ctx, rep)
     # rendering is total: a renderer that panics on a library the parser produced yields no text at all, so there is nothing to parse back
     from rules import c04
